@@ -503,6 +503,12 @@ def r9_params_whitespace(ctx):
     c16.rws_separator_sees_no_whitespace(ctx, "C01.R9")
 
 
+def r10_not_found_iff_unbound(ctx):
+    """-32601 exactly for an unknown method (= C13.R5)"""
+    from . import c13
+    c13.r5_not_found_iff_unbound(ctx, "C01.R10")
+
+
 DESER_CTOR = r"^serde_json::Deserializer::<.*>::(from_slice|from_str|from_reader|new)$|^serde_json::de::Deserializer::<.*>::(from_slice|from_str|from_reader|new)$"
 DESER_END = r"^serde_json::(de::)?Deserializer::<.*>::end$"
 WRAPPERS = r"^jsonrpsee_server::utils::deserialize_with_ext::(call|notif)::(from_slice|from_str)$"
@@ -577,7 +583,7 @@ def control_hand_driven(ctx):
 CONTROLS = [control_hand_driven]
 
 
-RULES = [r1_id_echo, r1b_handler_args, r2_classify_once, r3_ws_reply_once, r4_invocation_authority, r5_failure_classes, r6_transport_agreement, r7_whole_message, r8_classifiers_are_plain, r9_params_whitespace]
+RULES = [r1_id_echo, r1b_handler_args, r2_classify_once, r3_ws_reply_once, r4_invocation_authority, r5_failure_classes, r6_transport_agreement, r7_whole_message, r8_classifiers_are_plain, r9_params_whitespace, r10_not_found_iff_unbound]
 
 LEVEL_TEXT = (
     "Structural necessary conditions of the request/reply contract decided from the type-checked program for every "
